@@ -1,22 +1,118 @@
-(* C05 — property theorems only.  Each is closed by `exact <lemma>` and followed by Print Assumptions. *)
+(* C05 — property theorems only.  Each is closed by `exact <lemma>` and followed by Print Assumptions.
+
+   Reading guide.  `run validate st0 h` is the stream emitted by ValidationFilter + ActiveRulesCalculator for the
+   history h (each input carries the Go map iteration orders of that update: they are universally quantified
+   here).  `ds_of validate ds0 h` is the filtered datastore (an invalid write counts as a delete), `view_of` the
+   dataplane's view (fold of the emitted stream), `ep_verdict` the endpoint's verdict under Common/PolicyRef.v. *)
 From Coq Require Import List NArith Bool.
 From Verif.Common Require Import Packet PolicyRef Labels.
-From Verif.C05 Require Import Model Spec ProofsFilter.
+From Verif.C05 Require Import Model Spec ProofsFilter ProofsProfiles ProofsStep ProofsVerdict ProofsMain ProofsOracle.
 Import ListNotations.
 Open Scope N_scope.
 
+(* An endpoint names profile p (anywhere in its ProfileIDs) and the datastore has no valid p: the profile the
+   dataplane holds for p is the stand-in - inbound [deny], outbound [deny] - and EVERY packet that reaches p's
+   stage (the tiers and the earlier profiles pass it on) is denied, in both directions, whatever the IP sets,
+   the tiers and the later profiles are.  For every validator, history and iteration order. *)
+Theorem c05_missing_profile_denies : forall (validate : value -> bool) h e ep pre p post,
+  aget e (d_eps (ds_of validate ds0 h)) = Some ep ->
+  ep_profiles ep = pre ++ p :: post ->
+  aget p (d_profs (ds_of validate ds0 h)) = None ->
+  let v := view_of (run validate st0 h) in
+  aget p (v_profs v) = Some dummy_drop
+  /\ pr_in dummy_drop = [deny_rule] /\ pr_out dummy_drop = [deny_rule] /\ cr_action deny_rule = Deny
+  /\ forall (s : ipsets) tiers_of inbound pkt,
+       (forall t, In t (tiers_of v) -> tier_verdict s t pkt = VPass \/ tier_verdict s t pkt = VNoMatch) ->
+       passes_on s (profile_chain v pre inbound) pkt ->
+       ep_verdict s tiers_of v (ep_profiles ep) inbound pkt = VDeny.
+Proof. exact missing_profile_denies. Qed.
+Print Assumptions c05_missing_profile_denies.
+
+(* After a valid version of p is written - whatever happened before (p missing, deleted while referenced,
+   replaced by invalid versions: h1 is arbitrary) and whatever happens afterwards to other keys - every endpoint
+   that names p gets p's own rules: they have replaced the deny. *)
+Theorem c05_late_profile_replaces : forall (validate : value -> bool) h1 h2 p r sched ord e ep,
+  validate (VProf r) = true ->
+  (forall i, In i h2 -> i_key i <> KProf p) ->
+  let h := h1 ++ write (KProf p) (Some (VProf r)) sched ord :: h2 in
+  aget e (d_eps (ds_of validate ds0 h)) = Some ep -> In p (ep_profiles ep) ->
+  aget p (v_profs (view_of (run validate st0 h))) = Some r.
+Proof. exact late_profile_replaces. Qed.
+Print Assumptions c05_late_profile_replaces.
+
+(* The general form of the two: after EVERY history, every profile id named by an endpoint of the filtered
+   datastore is in the dataplane with the datastore's rules if it has them, the stand-in otherwise. *)
+Theorem c05_profiles_fail_closed : forall (validate : value -> bool) h e ep p,
+  aget e (d_eps (ds_of validate ds0 h)) = Some ep -> In p (ep_profiles ep) ->
+  aget p (v_profs (view_of (run validate st0 h))) = Some (expected_profile (ds_of validate ds0 h) p).
+Proof. exact profiles_fail_closed. Qed.
+Print Assumptions c05_profiles_fail_closed.
+
 (* A history in which an invalid version of a resource is written is observationally identical - message for
-   message, for every validator, every start state and every Go map iteration order - to the history in which
-   that write is a delete. *)
+   message, for every validator, every start state and every iteration order - to the history in which that
+   write is a delete. *)
 Theorem c05_invalid_is_absent : forall (validate : value -> bool) h1 h2 s k v sched ord,
   validate v = false ->
   run validate s (h1 ++ write k (Some v) sched ord :: h2) = run validate s (h1 ++ write k None sched ord :: h2).
 Proof. exact invalid_write_is_delete. Qed.
 Print Assumptions c05_invalid_is_absent.
 
-(* ... and for any number of invalid writes at once: replacing every invalid value of a history by a delete
-   changes no emitted message. *)
+(* ... for any number of invalid writes at once; and the filter forwards the value itself or nil, never a
+   third thing (nothing is partially applied). *)
 Theorem c05_invalid_is_absent_all : forall (validate : value -> bool) h s,
   run validate s (map (as_delete validate) h) = run validate s h.
 Proof. exact run_as_delete. Qed.
 Print Assumptions c05_invalid_is_absent_all.
+
+Theorem c05_never_partially_applied : forall (validate : value -> bool) ov,
+  vf_filter validate ov = ov \/ vf_filter validate ov = None.
+Proof. exact vf_filter_whole_or_nil. Qed.
+Print Assumptions c05_never_partially_applied.
+
+(* For every packet, endpoint, direction and way of assembling tiers from the dataplane's view: the verdict in
+   the history with the invalid write is <= (deny < allow) the verdict in the history where the resource is
+   absent instead. *)
+Theorem c05_never_more_open : forall (validate : value -> bool) h1 h2 k val sched ord s tiers_of ids inbound pkt,
+  validate val = false ->
+  vle (ep_verdict s tiers_of (view_of (run validate st0 (h1 ++ write k (Some val) sched ord :: h2))) ids inbound pkt)
+      (ep_verdict s tiers_of (view_of (run validate st0 (h1 ++ write k None sched ord :: h2))) ids inbound pkt).
+Proof. exact never_more_open_invalid. Qed.
+Print Assumptions c05_never_more_open.
+
+(* ... and the stand-in for a MISSING profile is at most as open as any content that profile could have: for
+   every packet the endpoint's verdict with the stand-in at p's position <= its verdict with rules rs there. *)
+Theorem c05_missing_is_most_closed : forall (s : ipsets) tiers pre post rs pkt,
+  vle (endpoint_verdict s tiers (pre ++ ref_rules (pr_in dummy_drop) :: post) pkt)
+      (endpoint_verdict s tiers (pre ++ rs :: post) pkt)
+  /\ vle (endpoint_verdict s tiers (pre ++ ref_rules (pr_out dummy_drop) :: post) pkt)
+         (endpoint_verdict s tiers (pre ++ rs :: post) pkt).
+Proof. exact missing_most_closed. Qed.
+Print Assumptions c05_missing_is_most_closed.
+
+(* The profile part of the oracle that the correspondence run applies to the implementation's trace accepts
+   every run of the model. *)
+Theorem c05_model_meets_spec_profiles : forall (validate : value -> bool) h,
+  ok_profiles (ds_of validate ds0 h) (view_of (run validate st0 h)) = true.
+Proof. exact model_meets_spec_profiles. Qed.
+Print Assumptions c05_model_meets_spec_profiles.
+
+(* Non-vacuity: endpoint 0 names profiles [7; 8]; 7 is missing -> stand-in; 7 is then written -> its own rules;
+   an invalid version (validate rejects rules tagged 99) -> stand-in again; deleted endpoint -> profile removed. *)
+Definition ex_validate (v : value) : bool :=
+  match v with VProf r => negb (existsb (fun c => N.eqb (cr_tag c) 99) (pr_in r)) | _ => true end.
+Definition ex_allow : crule := {| cr_action := Allow; cr_proto := Some 6; cr_dports := [(80, 80)]; cr_tag := 0 |}.
+Definition ex_bad : crule := {| cr_action := Allow; cr_proto := None; cr_dports := []; cr_tag := 99 |}.
+Definition ex_history : list input :=
+  [ write (KProf 8) (Some (VProf {| pr_in := []; pr_out := [ex_allow] |})) [] [];
+    write (KEp 0) (Some (VEp {| ep_labels := []; ep_profiles := [7; 8] |})) [] [8; 7];
+    write (KProf 7) (Some (VProf {| pr_in := [ex_allow]; pr_out := [] |})) [] [];
+    write (KProf 7) (Some (VProf {| pr_in := [ex_bad]; pr_out := [] |})) [] [];
+    write (KEp 0) None [] [] ].
+Example c05_example :
+  run ex_validate st0 ex_history =
+  [ [EStats 0 0 1];
+    [EProfActive 8 {| pr_in := []; pr_out := [ex_allow] |}; EProfActive 7 dummy_drop];
+    [EProfActive 7 {| pr_in := [ex_allow]; pr_out := [] |}; EStats 0 0 2];
+    [EProfActive 7 dummy_drop; EStats 0 0 1];
+    [EProfInactive 7; EProfInactive 8] ].
+Proof. vm_compute. reflexivity. Qed.
